@@ -180,7 +180,12 @@ def symbolic_bytes(t, enc_keys=None, a=None):
         cur = symbolic_bytes(t[2], enc_keys, a)
         if cur is None:
             return None
-        for site, wpath, desc, dom in t[3]:
+        writers = t[3]
+        if len(writers) == 1 and a is not None:
+            un = _unroll_literal_loop(a, writers[0])
+            if un is not None:
+                writers = un
+        for site, wpath, desc, dom in writers:
             if not dom or desc[0] != 'call' or len(wpath) != 1 or wpath[0][0] != 'slice':
                 return None
             lo, hi = wpath[0][1], wpath[0][2]
@@ -208,6 +213,68 @@ def symbolic_bytes(t, enc_keys=None, a=None):
                 return None
         return cur
     return None
+
+
+def _unroll_literal_loop(a, w):
+    """one writer inside `for (i, x) in [e0, e1, …].iter().enumerate() { write(&mut buf[f(i)..g(i)], *x) }`: the writer once per
+    element, with the position and the element substituted and the range folded; None if the shape is another one"""
+    from .aeadctx import _payload_path, _iter_layout
+    from .common import literal_array_of
+    from ..prov import fold_bin
+    site, wpath, desc, dom = w
+    if desc[0] not in ('call', 'call?') or len(wpath) != 1 or wpath[0][0] != 'slice':
+        return None
+    found = []
+
+    def scan(x):
+        if isinstance(x, tuple) and x:
+            if x[0] == 'field':
+                pth, nx = _payload_path(x)
+                if nx is not None:
+                    found.append((pth, nx))
+                    return
+            for y in x:
+                scan(y)
+    scan(wpath)
+    scan(desc[2])
+    if not found or len({nx[3] for _, nx in found}) != 1:
+        return None
+    nx = found[0][1]
+    lay = _iter_layout(a, nx)
+    if lay is None or lay[0] != {('0',): ('index',), ('1',): ('elem', lay[1][0])} or len(lay[1]) != 1:
+        return None
+    arr, _ = literal_array_of(a, lay[1][0], a.term_point(nx[3]))
+    if arr is None:
+        return None
+    elems = list(arr[3])
+    # a plain `for`: one loop, whose only branch is the one on next(); the writer runs in every iteration
+    lb = _loop_blocks(a)
+    nsw = len([b2 for b2 in lb if a.body.blocks[b2]['term']['k'] == 'switch' and not a.body.blocks[b2]['cleanup']])
+    backs = a.cfg.back_edges()
+    if site[0] not in lb or nsw != 1 or len(backs) != 1 or not a.cfg.dominates(site[0], backs[0][0]):
+        return None
+
+    def sub(x, k):
+        if not isinstance(x, tuple) or not x:
+            return x
+        if x[0] == 'load' and not x[2] and x[1][0] == 'field':
+            pth, n2 = _payload_path(x[1])
+            if n2 is not None and n2[3] == nx[3] and pth == ('1',):
+                return elems[k]
+        if x[0] == 'field':
+            pth, n2 = _payload_path(x)
+            if n2 is not None and n2[3] == nx[3] and pth == ('0',):
+                return ('const', 'usize', k)
+        new = tuple(sub(y, k) for y in x)
+        if new[0] == 'bin' and len(new) == 4 and isinstance(new[2], tuple) and isinstance(new[3], tuple):
+            return fold_bin(new[1], new[2], new[3])
+        return new
+    out = []
+    for k in range(len(elems)):
+        wp = tuple(sub(e, k) for e in wpath)
+        d = (('call',) + desc[1:2] + (tuple(sub(x, k) for x in desc[2]),) + desc[3:])
+        out.append((site, wp, d, True))
+    return out
 
 
 # ---------------------------------------------------------------------- R02.4
